@@ -45,3 +45,13 @@ register_simp_attr gen_orders
 register_simp_attr gen_mock
 /-- generated definitions of group `connectivity_updates` (tools/rust2lean_sm.py, Generated/Machines3.lean) -/
 register_simp_attr gen_connectivity_updates
+/-- generated definitions of group `audit_seq` (tools/rust2lean_sm.py, Generated/Machines4.lean) -/
+register_simp_attr gen_audit_seq
+/-- generated definitions of group `exec_map` (tools/rust2lean_sm.py, Generated/Machines4.lean) -/
+register_simp_attr gen_exec_map
+/-- generated definitions of group `indexer` (tools/rust2lean_sm.py, Generated/Machines4.lean) -/
+register_simp_attr gen_indexer
+/-- generated definitions of group `filters_actions` (tools/rust2lean_sm.py, Generated/Machines4.lean) -/
+register_simp_attr gen_filters_actions
+/-- generated definitions of group `send_requests` (tools/rust2lean_sm.py, Generated/Machines4.lean) -/
+register_simp_attr gen_send_requests
